@@ -550,7 +550,8 @@ class TypeInstance(Type):
                 return False
             if b.upper and b.upper.subtype(a.operator, strict=True):
                 return False
-            if b.lower and (b.lower.subtype(a.operator) is False):
+            if b.lower and (b.lower.subtype(a.operator) is False) and not (
+                    subtype and a.operator.subtype(b.lower)):
                 return False
             if accept_wildcard and b.wildcard:
                 return True
@@ -561,7 +562,8 @@ class TypeInstance(Type):
                 return False
             if a.lower and b.operator.subtype(a.lower, strict=True):
                 return False
-            if a.upper and (a.upper.subtype(b.operator) is False):
+            if a.upper and (a.upper.subtype(b.operator) is False) and not (
+                    subtype and b.operator.subtype(a.upper)):
                 return False
             if accept_wildcard and a.wildcard:
                 return True
